@@ -525,8 +525,10 @@ AllHaz(d) == UNION {Haz(d.rules, d.es, i, {"fill"} \cup StrokeProps) : i \in {j 
 \* every shape element with the order-sensitivity features of all its paint properties and, when it has no fill paint, the cells of
 \* its outline (fp): the driver pairs recorded layers with elements by geometry, independently of how they are painted
 NoCands == [col |-> {}]
+\* the vertices (end points of the segments, scaled by S) of a polygonal / path outline: a second means of recognising its layer
+Vertices(n) == IF n.kind = "poly" THEN UNION {{n.contours[k][j] : j \in 1..Len(n.contours[k])} : k \in 1..Len(n.contours)} ELSE {}
 ShapeRec(d, i) == LET es == d.es n == NF(es[i]) nofill == Computed(d.rules, es, i, "fill") = "none" IN
-    [el |-> i, haz |-> Haz(d.rules, es, i, {"fill"} \cup StrokeProps) \cup GeoFeat(n),
+    [el |-> i, haz |-> Haz(d.rules, es, i, {"fill"} \cup StrokeProps) \cup GeoFeat(n), vs |-> Vertices(n),
      fp |-> IF nofill THEN <<FillEvent(i, n, "black", 0, SMap(d, CTM(es, i)), {}, NoCands)>> ELSE <<>>]
 RECURSIVE DocShapes(_, _)
 DocShapes(d, i) == IF i > Len(d.es) THEN <<>> ELSE (IF IsShape(d.es[i]) THEN <<ShapeRec(d, i)>> ELSE <<>>) \o DocShapes(d, i + 1)
@@ -577,7 +579,7 @@ RECURSIVE AllRTEvents(_, _)
 AllRTEvents(D, k) == IF k > Len(D.draws) THEN <<>> ELSE RTEvents(D, k) \o AllRTEvents(D, k + 1)
 RTShape(D, k) == LET dr == D.draws[k] n == RTNF(dr) m == dr.view
                      map == [a |-> <<m[1], m[2], S * m[3], -m[4], -m[5], S * (D.h - m[6])>>, dx |-> S * D.w, dy |-> S * D.h] IN
-                 [el |-> k, haz |-> RTFeat(dr, n) \cup GeoFeat(n), fp |-> IF dr.fill = "none" \/ dr.rule # 0 THEN <<FillEvent(k, n, "black", 0, map, {}, NoCands)>> ELSE <<>>]
+                 [el |-> k, haz |-> RTFeat(dr, n) \cup GeoFeat(n), vs |-> {}, fp |-> IF dr.fill = "none" \/ dr.rule # 0 THEN <<FillEvent(k, n, "black", 0, map, {}, NoCands)>> ELSE <<>>]
 RTScenario == LET D == Drawing ev == AllRTEvents(D, 1) IN
               [mode |-> "rt", drawing |-> D, size |-> <<D.w, 1, D.h, 1>>, events |-> ev, shapes |-> [k \in 1..Len(D.draws) |-> RTShape(D, k)],
                feat |-> UNION {ev[i].haz : i \in 1..Len(ev)}, haz |-> {}]
